@@ -81,6 +81,7 @@ variable (w : World) (p f t : Pid) (c s : Nat)
 @[simp] theorem setSnd_servers (x : Snd) : (setSnd w p x).servers = w.servers := rfl
 @[simp] theorem setSnd_rcvs (x : Snd) : (setSnd w p x).rcvs = w.rcvs := rfl
 @[simp] theorem setSnd_conns (x : Snd) : (setSnd w p x).conns = w.conns := rfl
+@[simp] theorem setSnd_snaps (x : Snd) : (setSnd w p x).snaps = w.snaps := rfl
 @[simp] theorem setSnd_panicked (x : Snd) : (setSnd w p x).panicked = w.panicked := rfl
 
 @[simp] theorem setRcv_cfg (x : Rcv) : (setRcv w p x).cfg = w.cfg := rfl
@@ -90,6 +91,7 @@ variable (w : World) (p f t : Pid) (c s : Nat)
 @[simp] theorem setRcv_servers (x : Rcv) : (setRcv w p x).servers = w.servers := rfl
 @[simp] theorem setRcv_snds (x : Rcv) : (setRcv w p x).snds = w.snds := rfl
 @[simp] theorem setRcv_conns (x : Rcv) : (setRcv w p x).conns = w.conns := rfl
+@[simp] theorem setRcv_snaps (x : Rcv) : (setRcv w p x).snaps = w.snaps := rfl
 @[simp] theorem setRcv_panicked (x : Rcv) : (setRcv w p x).panicked = w.panicked := rfl
 
 @[simp] theorem setConn_cfg (x : Conn) : (setConn w f t x).cfg = w.cfg := rfl
@@ -99,6 +101,7 @@ variable (w : World) (p f t : Pid) (c s : Nat)
 @[simp] theorem setConn_servers (x : Conn) : (setConn w f t x).servers = w.servers := rfl
 @[simp] theorem setConn_snds (x : Conn) : (setConn w f t x).snds = w.snds := rfl
 @[simp] theorem setConn_rcvs (x : Conn) : (setConn w f t x).rcvs = w.rcvs := rfl
+@[simp] theorem setConn_snaps (x : Conn) : (setConn w f t x).snaps = w.snaps := rfl
 @[simp] theorem setConn_panicked (x : Conn) : (setConn w f t x).panicked = w.panicked := rfl
 
 @[simp] theorem delConn_cfg : (delConn w f t).cfg = w.cfg := rfl
@@ -108,6 +111,7 @@ variable (w : World) (p f t : Pid) (c s : Nat)
 @[simp] theorem delConn_servers : (delConn w f t).servers = w.servers := rfl
 @[simp] theorem delConn_snds : (delConn w f t).snds = w.snds := rfl
 @[simp] theorem delConn_rcvs : (delConn w f t).rcvs = w.rcvs := rfl
+@[simp] theorem delConn_snaps : (delConn w f t).snaps = w.snaps := rfl
 @[simp] theorem delConn_panicked : (delConn w f t).panicked = w.panicked := rfl
 
 @[simp] theorem setCl_cfg (x : Client) : (setCl w c x).cfg = w.cfg := rfl
@@ -117,6 +121,7 @@ variable (w : World) (p f t : Pid) (c s : Nat)
 @[simp] theorem setCl_snds (x : Client) : (setCl w c x).snds = w.snds := rfl
 @[simp] theorem setCl_rcvs (x : Client) : (setCl w c x).rcvs = w.rcvs := rfl
 @[simp] theorem setCl_conns (x : Client) : (setCl w c x).conns = w.conns := rfl
+@[simp] theorem setCl_snaps (x : Client) : (setCl w c x).snaps = w.snaps := rfl
 @[simp] theorem setCl_panicked (x : Client) : (setCl w c x).panicked = w.panicked := rfl
 
 @[simp] theorem setSv_cfg (x : Server) : (setSv w s x).cfg = w.cfg := rfl
@@ -126,7 +131,18 @@ variable (w : World) (p f t : Pid) (c s : Nat)
 @[simp] theorem setSv_snds (x : Server) : (setSv w s x).snds = w.snds := rfl
 @[simp] theorem setSv_rcvs (x : Server) : (setSv w s x).rcvs = w.rcvs := rfl
 @[simp] theorem setSv_conns (x : Server) : (setSv w s x).conns = w.conns := rfl
+@[simp] theorem setSv_snaps (x : Server) : (setSv w s x).snaps = w.snaps := rfl
 @[simp] theorem setSv_panicked (x : Server) : (setSv w s x).panicked = w.panicked := rfl
+
+@[simp] theorem setSnap_cfg (x : Snap) : (setSnap w p x).cfg = w.cfg := rfl
+@[simp] theorem setSnap_clientReg (x : Snap) : (setSnap w p x).clientReg = w.clientReg := rfl
+@[simp] theorem setSnap_serverReg (x : Snap) : (setSnap w p x).serverReg = w.serverReg := rfl
+@[simp] theorem setSnap_clients (x : Snap) : (setSnap w p x).clients = w.clients := rfl
+@[simp] theorem setSnap_servers (x : Snap) : (setSnap w p x).servers = w.servers := rfl
+@[simp] theorem setSnap_snds (x : Snap) : (setSnap w p x).snds = w.snds := rfl
+@[simp] theorem setSnap_rcvs (x : Snap) : (setSnap w p x).rcvs = w.rcvs := rfl
+@[simp] theorem setSnap_conns (x : Snap) : (setSnap w p x).conns = w.conns := rfl
+@[simp] theorem setSnap_panicked (x : Snap) : (setSnap w p x).panicked = w.panicked := rfl
 
 end proj
 
@@ -189,6 +205,21 @@ theorem getConn_delConn (f t f' t' : Pid) :
 @[simp] theorem getSv_setConn (f t : Pid) (s : Nat) (x : Conn) : getSv (setConn w f t x) s = getSv w s := rfl
 @[simp] theorem getSv_delConn (f t : Pid) (s : Nat) : getSv (delConn w f t) s = getSv w s := rfl
 @[simp] theorem getSv_setCl (c s : Nat) (x : Client) : getSv (setCl w c x) s = getSv w s := rfl
+
+@[simp] theorem getSnap_setSnap (p p' : Pid) (x : Snap) :
+    getSnap (setSnap w p x) p' = if p' = p then some x else getSnap w p' := by
+  simp [getSnap, setSnap, AMap.get_set]
+@[simp] theorem getSnap_setSnd (p p' : Pid) (x : Snd) : getSnap (setSnd w p x) p' = getSnap w p' := rfl
+@[simp] theorem getSnap_setRcv (p p' : Pid) (x : Rcv) : getSnap (setRcv w p x) p' = getSnap w p' := rfl
+@[simp] theorem getSnap_setConn (f t p' : Pid) (x : Conn) : getSnap (setConn w f t x) p' = getSnap w p' := rfl
+@[simp] theorem getSnap_delConn (f t p' : Pid) : getSnap (delConn w f t) p' = getSnap w p' := rfl
+@[simp] theorem getSnap_setCl (c : Nat) (p' : Pid) (x : Client) : getSnap (setCl w c x) p' = getSnap w p' := rfl
+@[simp] theorem getSnap_setSv (s : Nat) (p' : Pid) (x : Server) : getSnap (setSv w s x) p' = getSnap w p' := rfl
+@[simp] theorem getSnd_setSnap (p p' : Pid) (x : Snap) : getSnd (setSnap w p x) p' = getSnd w p' := rfl
+@[simp] theorem getRcv_setSnap (p p' : Pid) (x : Snap) : getRcv (setSnap w p x) p' = getRcv w p' := rfl
+@[simp] theorem getConn_setSnap (p f t : Pid) (x : Snap) : getConn (setSnap w p x) f t = getConn w f t := rfl
+@[simp] theorem getCl_setSnap (p : Pid) (c : Nat) (x : Snap) : getCl (setSnap w p x) c = getCl w c := rfl
+@[simp] theorem getSv_setSnap (p : Pid) (s : Nat) (x : Snap) : getSv (setSnap w p x) s = getSv w s := rfl
 
 end getset
 
